@@ -29,6 +29,8 @@ def run(prog, tier, res):
     R3 = res.rule("C02.R3", "accept predicate equals the decision table (short form: 2 cases; full form: 12 cases)", 14)
     R4 = res.rule("C02.R4", "accessors return their field; AdcPacket wrappers forward", 30)
     R5 = res.rule("C02.R5", "id conversions accept exactly module 0..=7, A16 0..=15, A32 0..=31 and store the value; MAC lookup compares the whole 6-byte address against the board table", 4)
+    from .common import check_try_from_wrapper as _ctw
+    _ctw(prog, res, R4, '<alpha_g_detector::alpha16::AdcPacket as std::convert::TryFrom<&[u8]>>::try_from', '<alpha_g_detector::alpha16::AdcV3Packet as std::convert::TryFrom<&[u8]>>::try_from', 'V3', '[0..L)')
 
     tabs, an, sy = accept.accept_tables(prog, FN, alias=alias)
     body = an.body
